@@ -164,13 +164,14 @@ def has_rel(v):
 
 
 class Event:
-    __slots__ = ("kind", "origin", "via", "sure", "desc", "loc", "chain")
+    __slots__ = ("kind", "origin", "via", "sure", "desc", "loc", "chain", "guard")
 
-    def __init__(self, kind, origin, via, sure, desc, loc, chain=()):
+    def __init__(self, kind, origin, via, sure, desc, loc, chain=(), guard=""):
         self.kind, self.origin, self.via, self.sure, self.desc, self.loc, self.chain = kind, origin, via, sure, desc, loc, tuple(chain)
+        self.guard = guard  # option values (self.<option> == const / in consts) under which the sink is reached, outermost caller first
 
     def key(self):
-        return (self.kind, self.origin, self.via, self.sure, self.desc, self.chain, self.loc)
+        return (self.kind, self.origin, self.via, self.sure, self.desc, self.chain, self.loc, self.guard)
 
     def __repr__(self):
         return "<%s %s via %s %s %s @%s %s>" % (self.kind, self.origin, self.via, "sure" if self.sure else "maybe", self.desc, self.loc,
@@ -328,6 +329,7 @@ class _FnAnalysis:
         self.events = {} if outer is None else outer.events
         self.sites = set() if outer is None else outer.sites
         self.ret = None
+        self.guards = [] if outer is None else list(outer.guards)
         self.exit_self = None
         self.loop_stack = []
         self.loop_cache = {} if outer is None else outer.loop_cache
@@ -358,7 +360,25 @@ class _FnAnalysis:
     def loc(self, node):
         return "%s:%s" % (self.module.relpath, getattr(node, "lineno", "?"))
 
-    def emit(self, kind, val, via, desc, node, sure=True, chain=(), loc=None):
+    def guard_desc(self):
+        """option conditions dominating the current statement: `self.<opt> == c` / `self.<opt> in (c, ...)` atoms that hold here"""
+        atoms = set()
+        for test, pol in self.guards:
+            t = test if pol else _negate(test)
+            for a in _conjuncts(t):
+                if isinstance(a, ast.Compare) and len(a.ops) == 1 and isinstance(a.ops[0], (ast.Eq, ast.In)) and self.is_self_attr_node(a.left):
+                    c = a.comparators[0]
+                    consts = c.elts if isinstance(c, (ast.List, ast.Tuple, ast.Set)) else [c]
+                    if consts and all(isinstance(x, ast.Constant) and isinstance(x.value, (str, int, float)) and not isinstance(x.value, bool)
+                                      for x in consts):
+                        vals = sorted(repr(x.value) for x in consts)
+                        atoms.add("self.%s=%s" % (a.left.attr, "|".join(vals)))
+        return "&".join(sorted(atoms))
+
+    def is_self_attr_node(self, n):
+        return isinstance(n, ast.Attribute) and self.is_self(n.value)
+
+    def emit(self, kind, val, via, desc, node, sure=True, chain=(), loc=None, guard=""):
         """register an event for every origin the value may be related to."""
         for a in val.all_atoms():
             if a == F:
@@ -372,7 +392,7 @@ class _FnAnalysis:
                 v2, s2 = via, False
             else:
                 v2, s2 = ("V" if (via == "V" or k != "A") else "A"), sure
-            e = Event(kind, o, v2, s2, desc, loc or self.loc(node), chain)
+            e = Event(kind, o, v2, s2, desc, loc or self.loc(node), chain, self.guard_desc() or guard)
             self.events.setdefault(e.key(), e)
 
     # ------------------------------------------------------------------ state helpers
@@ -470,8 +490,16 @@ class _FnAnalysis:
             return None
         if isinstance(n, ast.If):
             self.ev(n.test, st)
-            a = self.block(n.body, dict(st))
-            b = self.block(n.orelse, dict(st)) if n.orelse else dict(st)
+            self.guards.append((n.test, True))
+            try:
+                a = self.block(n.body, dict(st))
+            finally:
+                self.guards.pop()
+            self.guards.append((n.test, False))
+            try:
+                b = self.block(n.orelse, dict(st)) if n.orelse else dict(st)
+            finally:
+                self.guards.pop()
             return self.join_states([a, b])
         if isinstance(n, (ast.For, ast.AsyncFor)):
             return self.loop(n, st, is_for=True)
@@ -1002,12 +1030,12 @@ class _FnAnalysis:
                 if v is None:
                     continue  # default value: fresh
                 self.emit(ev_.kind, v, ev_.via, ev_.desc, call, sure=ev_.sure,
-                          chain=(cname,) + ev_.chain if len(ev_.chain) < 6 else ev_.chain, loc=ev_.loc)
+                          chain=(cname,) + ev_.chain if len(ev_.chain) < 6 else ev_.chain, loc=ev_.loc, guard=ev_.guard)
             else:
                 # origin is self.<attr> (same receiver) or a captured name: passes through unchanged
                 if t.kind == "method":
                     e2 = Event(ev_.kind, ev_.origin, ev_.via, ev_.sure, ev_.desc, ev_.loc,
-                               (cname,) + ev_.chain if len(ev_.chain) < 6 else ev_.chain)
+                               (cname,) + ev_.chain if len(ev_.chain) < 6 else ev_.chain, self.guard_desc() or ev_.guard)
                     self.events.setdefault(e2.key(), e2)
         if t.kind == "method" and s.self_out:
             # what the callee leaves on the (same) receiver is visible to the caller afterwards
@@ -1125,6 +1153,26 @@ class _FnAnalysis:
         if meth in FRESH_METHODS:
             return FRESH
         return join(FRESH, unknownify(join_all([recv] + allargs)))
+
+
+def _negate(t):
+    if isinstance(t, ast.UnaryOp) and isinstance(t.op, ast.Not):
+        return t.operand
+    flip = {ast.Eq: ast.NotEq, ast.NotEq: ast.Eq, ast.In: ast.NotIn, ast.NotIn: ast.In, ast.Is: ast.IsNot, ast.IsNot: ast.Is}
+    if isinstance(t, ast.Compare) and len(t.ops) == 1 and type(t.ops[0]) in flip:
+        return ast.Compare(left=t.left, ops=[flip[type(t.ops[0])]()], comparators=t.comparators)
+    if isinstance(t, ast.BoolOp):
+        return ast.BoolOp(op=ast.Or() if isinstance(t.op, ast.And) else ast.And(), values=[_negate(v) for v in t.values])
+    return ast.UnaryOp(op=ast.Not(), operand=t)
+
+
+def _conjuncts(t):
+    if isinstance(t, ast.BoolOp) and isinstance(t.op, ast.And):
+        out = []
+        for v in t.values:
+            out.extend(_conjuncts(v))
+        return out
+    return [t]
 
 
 def _index_kind(idx):
